@@ -30,7 +30,10 @@ Theorem on_request_opens s f o q s1 f1 o1 r :
   on_request s f o q = (s1, f1, o1, r) -> s_balance s = false -> MSG_ID_SPECIAL < q_mid q ->
   (has_client (q_cid q) (q_uid q) (clients s) = true \/ s_handshake s = false \/ q_new q = false) ->   (* not a first contact that needs HELLO *)
   (q_mid q < sf_msg_id f \/ q_eph q <> 0) ->                                                       (* not asking for a later id *)
-  (forall r0, In r0 (s_required s) -> exists x, In x (put_client (req_client s o q) (clients s)) /\ c_cid x = r0) ->
+  (forall r0, In r0 (s_required s) ->                                  (* every required output is connected and not timed out *)
+     exists x, In x (put_client (req_client s o q) (clients s)) /\ c_cid x = r0 /\
+               forall y, In y (put_client (req_client s o q) (clients s)) -> c_tlast y <? s_now s / 1000000 - CONN_TIMEOUT = true ->
+                         same_client (c_cid y) (c_uid y) x = false) ->
   (forall x, In x (put_client (req_client s o q) (clients s)) -> c_tlast x <? s_now s / 1000000 - CONN_TIMEOUT = false ->
              c_eph x = 0 -> c_requested x = true) ->
   sf_do_send f1 = true /\ r = PrTrue.
@@ -44,13 +47,12 @@ Proof.
   { destruct Hl as [H|H]; [replace (sf_msg_id f <=? q_mid q) with false by (symmetry; apply Z.leb_gt; exact H); reflexivity|].
     apply Z.eqb_neq in H. rewrite H. apply andb_false_r. }
   rewrite E2 in E. rewrite Hb in E.
-  assert (D0 : forallb (fun r0 => existsb (fun c0 => c_cid c0 =? r0) (put_client (req_client s o q) (clients s))) (s_required s) = true).
-  { apply forallb_forall. intros r0 Hr0. destruct (Hreq r0 Hr0) as (x & Hx & Ex). apply existsb_exists. exists x. split; [exact Hx|apply Z.eqb_eq; exact Ex]. }
-  rewrite D0 in E.
   destruct (scan false (s_now s / 1000000 - CONN_TIMEOUT) (put_client (req_client s o q) (clients s)) (put_client (req_client s o q) (clients s)) true [])
     as [[cl' ds1] outs] eqn:Es.
   inversion E; subst; clear E. cbn [sf_do_send]. split; [|reflexivity].
-  eapply scan_opens; [exact Es|exact Hall].
+  apply andb_true_iff. split; [eapply scan_opens; [exact Es|exact Hall]|].
+  apply forallb_forall. intros r0 Hr0. destruct (Hreq r0 Hr0) as (x & Hx & Ex & Hlive). apply existsb_exists. exists x.
+  split; [eapply scan_keeps; [exact Es|exact Hx|exact Hlive]|apply Z.eqb_eq; exact Ex].
 Qed.
 
 (* ... and an open gate publishes: the pending frame goes to every output, under the id of the call, and send() returns *)
